@@ -3,6 +3,7 @@ package main
 // Calls: builtins, conversions, contract application, inlining, havoc.
 
 import (
+	"os"
 	"fmt"
 	"go/ast"
 
@@ -410,6 +411,10 @@ func (u *Unit) callFunc(st *State, fo *types.Func, recv *Val, args []Val, c *ast
 		res = u.applyContract(st, ct, pk, key, nil, sigT, recv, args, c.Pos(), nil)
 		u.curCallArgs = nil
 	} else if decl := u.eng.findDecl(pk, key); decl != nil && u.canInline(decl, pk, key) {
+		if u.inlineDepth == 0 {
+			u.callN[key]++
+			u.checkCallAsserts(st, pk, key, u.callN[key], c.Pos())
+		}
 		res = u.inlineDecl(st, pk, decl, recv, args, c)
 	} else {
 		u.callN[key]++
@@ -873,6 +878,9 @@ func (u *Unit) canInline(decl *ast.FuncDecl, pk, key string) bool {
 	if decl.Body == nil || u.inlineDepth > 3 {
 		return false
 	}
+	if u.contract != nil && u.contract.NoInline {
+		return false
+	}
 	if pk+"."+key == u.curFnKey {
 		return false
 	}
@@ -1200,6 +1208,9 @@ func (u *Unit) ghostVarKey(home *packages.Package, name string) (string, string)
 // checkCallAsserts: `at call <callee>#k assert ...` clauses are checked (and then assumed) just
 // before the k-th call of the callee.
 func (u *Unit) checkCallAsserts(st *State, pk, key string, k int, pos token.Pos) {
+	if os.Getenv("GOVC_DEBUG") != "" {
+		fmt.Fprintf(os.Stderr, "callassert? %s.%s #%d depth=%d contract=%v\n", pk, key, k, u.inlineDepth, u.contract != nil)
+	}
 	if u.contract == nil || u.inlineDepth > 0 {
 		return
 	}
